@@ -131,6 +131,93 @@ fn check_state(s: &St, full: bool) -> Option<(&'static str, String)> {
     None
 }
 
+
+// ───────────── tier B: every boundary state of the modular reductions ─────────────
+
+/// A window of length `n` whose first byte is `out` and whose exact sums are ≡ (a_t, b_t) mod 65521.
+/// Mass is first packed at the low-weight end (minimal b), then single units are moved towards the
+/// front until the weighted sum reaches the target residue. Verified by the caller.
+fn window_for(n: usize, out: u8, a_t: u32, b_t: u32) -> Option<Vec<u8>> {
+    let m = MOD as u64;
+    let cap = 255u64 * (n as u64 - 1);
+    let a_t = u64::from(a_t);
+    let mut s = None;
+    // prefer a total with plenty of mass and plenty of room
+    for cand in [a_t + m, a_t, a_t + 2 * m] {
+        if cand >= u64::from(out) && cand - u64::from(out) <= cap && cand - u64::from(out) >= 400 {
+            s = Some(cand - u64::from(out));
+            break;
+        }
+    }
+    let mut rem = s?;
+    let mut w = vec![0u8; n];
+    w[0] = out;
+    let mut i = n - 1;
+    while rem > 0 && i >= 1 {
+        let t = rem.min(255);
+        w[i] = t as u8;
+        rem -= t;
+        i -= 1;
+    }
+    if rem > 0 {
+        return None;
+    }
+    let weight = |i: usize| (n - i) as u64;
+    let b0: u64 = w.iter().enumerate().map(|(i, &x)| weight(i) * u64::from(x)).sum();
+    let mut d = (u64::from(b_t) + m - b0 % m) % m;
+    let mut guard = 0;
+    while d > 0 {
+        guard += 1;
+        if guard > 200_000 {
+            return None;
+        }
+        let j = (1..n).find(|&k| w[k] < 255)?; // best destination (highest weight with room)
+        let i = (1..n).rev().find(|&k| w[k] > 0)?; // best source (lowest weight with mass)
+        if i <= j {
+            return None;
+        }
+        let gain = (i - j) as u64;
+        if gain <= d {
+            w[i] -= 1;
+            w[j] += 1;
+            d -= gain;
+        } else {
+            // a move of exactly d: any (src, dst) with src - dst = d, src has mass, dst has room
+            let dd = d as usize;
+            let mut done = false;
+            for dst in j..n - dd {
+                let src = dst + dd;
+                if w[dst] < 255 && w[src] > 0 {
+                    w[src] -= 1;
+                    w[dst] += 1;
+                    done = true;
+                    break;
+                }
+            }
+            if !done {
+                return None;
+            }
+            d = 0;
+        }
+    }
+    Some(w)
+}
+
+/// One boundary case: build the window, check it has the wanted sums, roll once, compare with the definition.
+fn boundary_case(n: usize, out: u8, inb: u8, a_old: u32, b_old: u32) -> (bool, Option<(&'static str, String)>) {
+    let Some(w) = window_for(n, out, a_old, b_old) else { return (false, None) };
+    let def = definition(&w);
+    if def != (b_old << 16 | a_old) {
+        return (false, None);
+    }
+    let mut st = St::new(&w);
+    if let Some(v) = check_state(&st, false) {
+        return (true, Some(v));
+    }
+    st.roll(inb);
+    (true, check_state(&st, false))
+}
+
 // ───────────── case description (replayable) ─────────────
 
 const PATTERNS: [&str; 8] = ["zero", "ff", "one", "ramp", "alt", "ff_then_zero", "zero_then_ff", "high"];
@@ -174,6 +261,11 @@ fn pat_byte(p: &str, i: usize, l: usize, seed: u64) -> u8 {
 /// Run a replayable case: init = {"hex":..} | {"len":L,"pattern":p} | {"empty":true};
 /// ops = list of ["push"|"roll", byte] or ["pushn"|"rolln", k] (pattern stream).
 pub fn run_case(case: &Value, seed: u64) -> Option<Violation> {
+    if let Some(bc) = case.get("boundary") {
+        let g = |k: &str| bc[k].as_u64().unwrap_or(0);
+        let (_, v) = boundary_case(g("n") as usize, g("out") as u8, g("in") as u8, g("a") as u32, g("b") as u32);
+        return v.map(|(k, m)| Violation::new(k, format!("{m} after one roll from a constructed boundary window"), case.clone()).with("kind", json!(k)));
+    }
     let init = &case["init"];
     let (mut st, pat, l) = if let Some(h) = init.get("hex").and_then(Value::as_str) {
         (St::new(&unhex(h)), "zero".to_string(), 0usize)
@@ -425,6 +517,74 @@ pub fn run(ctx: &Ctx) -> ! {
     states += macro_runs; // each macro run ends in (at least) one checked state of its own
     samples.push(json!({"tier":"L","init":{"len":8192,"pattern":"ff"},"ops":[["rolln",5001],["pushn",1]],"macro_depth":depth_l,"macro_sequences":macro_runs,"primitive_steps":prim_steps}));
 
+    // Tier D: deep histories — tens of millions of consecutive slides without re-initialisation (lazy
+    // normalisation intervals, accumulator headroom), checked against the definition every 997 steps.
+    let deep_n: u64 = if thorough { (1 << 26) + (1 << 22) } else { (1 << 25) + (1 << 22) };
+    let deep_jobs: Vec<(usize, &str)> = vec![(4096, "ff"), (64, "ff"), (4096, "high"), (2048, "alt")];
+    let dres: Vec<Option<Violation>> = deep_jobs
+        .par_iter()
+        .map(|(l, p)| run_case(&json!({"init": {"len": l, "pattern": p}, "ops": [["rolln", deep_n]]}), seed))
+        .collect();
+    for v in dres.into_iter().flatten() {
+        violations.push(v);
+    }
+    transitions += deep_n * deep_jobs.len() as u64;
+    states += deep_n / 997 * deep_jobs.len() as u64;
+    samples.push(json!({"tier":"D","init":{"len":4096,"pattern":"ff"},"ops":[["rolln",deep_n]],"runs":deep_jobs.len()}));
+
+    // Tier B: every boundary state of the two modular reductions of `roll`. For window length n and
+    // bytes (out, in): (i) for EVERY residue a' of the new byte sum, the old state whose new weighted
+    // sum is exactly ≡ 0; (ii) the new byte sum exactly ≡ 0 with EVERY residue of the old weighted sum.
+    let combos: Vec<(usize, u8, u8)> = if thorough {
+        let mut v = Vec::new();
+        for n in [300usize, 521, 1024] {
+            for o in [0u8, 1, 255] {
+                for i in [0u8, 1, 255] {
+                    v.push((n, o, i));
+                }
+            }
+        }
+        v
+    } else {
+        vec![(300, 0, 0), (300, 0, 255), (300, 255, 0), (300, 255, 255), (300, 1, 1), (521, 0, 173)]
+    };
+    let m32 = MOD as u32;
+    let mut bjobs: Vec<(usize, u8, u8, u32, u32)> = Vec::new();
+    for &(n, o, i) in &combos {
+        let no = (n as u64 * u64::from(o) % MOD as u64) as u32;
+        for x in 0..m32 {
+            // (i) a' = x, b' = 0  =>  a_old = a' + out - in, b_old = n*out - a'
+            let a_old = (x + u32::from(o) + m32 - u32::from(i)) % m32;
+            let b_old = (no + m32 - x) % m32;
+            bjobs.push((n, o, i, a_old, b_old));
+            // (ii) a' = 0, b_old = x
+            let a_old0 = (u32::from(o) + m32 - u32::from(i)) % m32;
+            bjobs.push((n, o, i, a_old0, x));
+        }
+    }
+    let bres: Vec<(bool, Option<Violation>)> = bjobs
+        .par_iter()
+        .map(|&(n, o, i, a, b)| {
+            let (built, v) = boundary_case(n, o, i, a, b);
+            (built, v.map(|(k, m)| Violation::new(k, format!("{m} after one roll from a constructed boundary window (n={n}, out={o}, in={i}, sums ≡ ({a}, {b}))"), json!({"boundary": {"n": n, "out": o, "in": i, "a": a, "b": b}})).with("kind", json!(k))))
+        })
+        .collect();
+    let built = bres.iter().filter(|r| r.0).count() as u64;
+    if built * 100 < bjobs.len() as u64 * 95 {
+        machinery_error(format!("C17 tier B: only {built} of {} boundary windows could be constructed", bjobs.len()));
+    }
+    let mut seen_b: HashSet<String> = HashSet::new();
+    for (_, v) in bres {
+        if let Some(v) = v {
+            if seen_b.insert(v.kind().to_string()) {
+                violations.push(v);
+            }
+        }
+    }
+    states += built;
+    transitions += built;
+    samples.push(json!({"tier":"B","boundary":{"n":300,"out":0,"in":255,"a":255,"b":65266},"constructed":built,"wanted":bjobs.len()}));
+
     // Determinism of the replay path: every reported violation must reproduce.
     for v in &violations {
         let again = run_case(&v.detail, seed);
@@ -439,8 +599,8 @@ pub fn run(ctx: &Ctx) -> ! {
         .set("traces_validated_against_impl", transitions)
         .set("samples", Value::Array(samples))
         .set("exhaustive", true)
-        .set("bounds", json!({"tier_S_depth": depth_s, "tier_S_roots": tier_s_roots, "tier_M_depth": depth_m, "tier_M_roots": roots_m.len(), "tier_L_macro_depth": depth_l, "tier_L_lengths": lens.len(), "tier_L_patterns": PATTERNS.len()}))
+        .set("bounds", json!({"tier_S_depth": depth_s, "tier_S_roots": tier_s_roots, "tier_M_depth": depth_m, "tier_M_roots": roots_m.len(), "tier_L_macro_depth": depth_l, "tier_L_lengths": lens.len(), "tier_L_patterns": PATTERNS.len(), "tier_D_consecutive_rolls": deep_n, "tier_B_boundary_states": built}))
         .set("explanation", "explicit-state BFS; every transition calls the real push/roll on cloned real objects; dedup key = full Debug state of both objects + window bytes; oracle = exact-integer definition recomputed from the harness's own window copy");
-    rep.assume("windows up to 65536 bytes; sequences bounded as in coverage.bounds; byte values of tier L drawn from 8 fixed patterns");
+    rep.assume("windows up to 65536 bytes; sequences bounded as in coverage.bounds; byte values of tier L drawn from 8 fixed patterns; tier D is a single deep path per pattern (not a product); tier B constructs, for every residue, one window realising the boundary state (the representative is fixed, the residues are exhaustive)");
     finish(ctx, rep, violations);
 }
